@@ -124,6 +124,13 @@ for m in spec["order"]:
     except SyntaxError:
         if m != "pbad":
             raise
+if spec.get("reload") and spec["reload"]["module"] in sys.modules:
+    # edit-and-reload while the hooks of this run are still installed (autoreload, a notebook workflow)
+    _rl = spec["reload"]
+    with open(_rl["path"], "w") as f:
+        f.write(_rl["source"])
+    os.utime(_rl["path"], (_rl["stamp"], _rl["stamp"]))
+    importlib.reload(sys.modules[_rl["module"]])
 for m in mgrs:
     m.uninstall()
 for m in spec.get("after", []):
@@ -161,7 +168,7 @@ def run_subprocess(d, run):
     env.pop("SOURCE_DATE_EPOCH", None)
     if run.get("source_date_epoch"):
         env["SOURCE_DATE_EPOCH"] = run["source_date_epoch"]  # reproducible-build environments export it; it changes nothing here
-    r = subprocess.run([sys.executable, "-W", "ignore", "-c", RUNNER, json.dumps({"dir": d, "hooks": run["hooks"], "order": run["order"], "after": run.get("after", []), "dont_write": run.get("dont_write", False), "disabled": run.get("disabled", False), "lazy_spy": run.get("lazy_spy", False), "edit_during": run.get("_edit_during"), "concurrent": run.get("_concurrent")})],
+    r = subprocess.run([sys.executable, "-W", "ignore", "-c", RUNNER, json.dumps({"dir": d, "hooks": run["hooks"], "order": run["order"], "after": run.get("after", []), "dont_write": run.get("dont_write", False), "disabled": run.get("disabled", False), "lazy_spy": run.get("lazy_spy", False), "edit_during": run.get("_edit_during"), "concurrent": run.get("_concurrent"), "reload": run.get("_reload")})],
                        capture_output=True, text=True, env=env, timeout=300)
     line = [l for l in r.stdout.splitlines() if l.startswith("VF18")]
     if not line:
@@ -239,6 +246,12 @@ def run_inprocess(d, run):
                 except SyntaxError:
                     if m != BAD:
                         raise
+            rl = run.get("_reload")
+            if rl and rl["module"] in sys.modules:
+                with open(rl["path"], "w") as f:
+                    f.write(rl["source"])
+                os.utime(rl["path"], (rl["stamp"], rl["stamp"]))
+                importlib.reload(sys.modules[rl["module"]])
         except BaseException as e:  # noqa: BLE001
             return {"error": f"{type(e).__name__}: {e}"}
         finally:
@@ -317,7 +330,11 @@ def model_run(run, versions):
 
 
 def check_history(ctx, hist, mode):
-    d = tempfile.mkdtemp(prefix="vf-c18-")
+    d = real_dir = tempfile.mkdtemp(prefix="vf-c18-")
+    if hist.get("symlinked"):
+        # the directory on sys.path is a symbolic link to where the files really are (a versioned deployment, a mounted checkout)
+        d = real_dir + "-ln"
+        os.symlink(real_dir, d)
     try:
         with open(os.path.join(d, "vf_spy18.py"), "w") as f:
             f.write(SPY_SRC)
@@ -369,7 +386,18 @@ def check_history(ctx, hist, mode):
                 same_size = bool(hist.get("same_size")) and versions[during] + 1 <= 9
                 run = dict(run, _edit_during={"path": os.path.join(d, FILES[during]), "stem": os.path.basename(FILES[during])[:-3], "stamp": stamp + 100,
                                               "source": source(during, versions[during] + 1, same_size)})
+            rmod = run.get("reload")
+            reloaded = bool(rmod and not during and not run.get("_concurrent") and rmod in exp and rmod in run["order"] and rmod != "ph" and not run.get("damage"))
+            if reloaded:
+                same_size = bool(hist.get("same_size")) and versions[rmod] + 1 <= 9
+                run = dict(run, _reload={"module": rmod, "path": os.path.join(d, FILES[rmod]), "stamp": stamp + 100, "source": source(rmod, versions[rmod] + 1, same_size)})
+                exp = dict(exp)
+                exp[rmod] = (exp[rmod][0], versions[rmod] + 1)  # after the reload the module runs the new source, instrumented as before
             got = run_subprocess(d, run) if mode == "subprocess" else run_inprocess(d, run)
+            if reloaded:
+                versions[rmod] += 1
+                stamp += 100
+                flags.add("edited-and-reloaded-under-the-same-hook")
             if during and during in exp:
                 versions[during] += 1
                 stamp += 100
@@ -405,9 +433,14 @@ def check_history(ctx, hist, mode):
                     continue  # saved while being imported: whether this very run already sees the new version depends on what it read last
                 if g["version"] != ver or g["const"] != ver:
                     raise Violation("stale-source", hist, f"{where}: executes source version {g['version']}/{g['const']}, current is {ver}")
-        ctx.note([hist, mode], len(hist["runs"]) >= 2 and bool(flags - {"run-with-SOURCE_DATE_EPOCH"}), classes=sorted(flags) + [f"mode-{mode}", f"runs-{len(hist['runs'])}"], sample={"runs": hist["runs"], "mode": mode})
+        ctx.note([hist, mode], len(hist["runs"]) >= 2 and bool(flags - {"run-with-SOURCE_DATE_EPOCH"}), classes=sorted(flags) + (["path-entry-is-a-symlink"] if hist.get("symlinked") else []) + [f"mode-{mode}", f"runs-{len(hist['runs'])}"], sample={"runs": hist["runs"], "mode": mode})
     finally:
-        shutil.rmtree(d, ignore_errors=True)
+        if d != real_dir:
+            try:
+                os.unlink(d)
+            except OSError:
+                pass
+        shutil.rmtree(real_dir, ignore_errors=True)
 
 
 names_st = st.lists(st.sampled_from(MODS + [BAD]), min_size=1, max_size=3, unique=True)
@@ -425,8 +458,10 @@ run_st = st.fixed_dictionaries({
     "after": st.lists(st.sampled_from(MODS), max_size=2, unique=True),
     "source_date_epoch": st.sampled_from([None, "315532800", None, None]),
     "concurrent": st.sampled_from([None, None, "pb", "pkg", "pa", None, "ph", "pkg.sub"]),
+    "reload": st.sampled_from([None, None, "pa", "pb", None, "pkg.sub"]),
 })
-_free_hist_st = st.fixed_dictionaries({"runs": st.lists(run_st, min_size=2, max_size=5), "same_size": st.sampled_from([False, True, False])})
+_free_hist_st = st.fixed_dictionaries({"runs": st.lists(run_st, min_size=2, max_size=5), "same_size": st.sampled_from([False, True, False]),
+                                       "symlinked": st.sampled_from([False, True, False])})
 
 
 @st.composite
